@@ -444,8 +444,11 @@ func (w *W) c06(groups [][]*driver.Bound) {
 					w.res.Evaluations++
 					w.judgeTruncated("C06", "UnmarshalBebop", b, o, k, role, ci, func() { b.New().UnmarshalBebop(pre[:k:k]) })
 					// stream path, two EOF styles
-					for _, style := range []int{0, 1, 2} {
+					for _, style := range []int{0, 1, 2, 3} {
 						cr := driver.NewChunkReader(enc[:k])
+						if style == 3 {
+							cr.FinalErr = errIO // the stream breaks off with a persistent I/O error instead of EOF
+						}
 						if style == 1 {
 							cr.Choose = func(opts []int) int {
 								for i, op := range opts {
@@ -470,9 +473,15 @@ func (w *W) c06(groups [][]*driver.Bound) {
 						if style == 2 {
 							name = "DecodeBebop(io.ByteReader)"
 						}
+						if style == 3 {
+							name = "DecodeBebop(stream ends in an I/O error)"
+						}
 						style := style
 						w.judgeTruncated("C06", name, b, o, k, role, ci, func() {
 							cr := driver.NewChunkReader(enc[:k])
+							if style == 3 {
+								cr.FinalErr = errIO
+							}
 							if style == 1 {
 								cr.Choose = func(opts []int) int {
 									for i, op := range opts {
@@ -539,6 +548,17 @@ func (w *W) judgeArbitrary(b *driver.Bound, in []byte, origin string, ci func() 
 		} else {
 			cr := driver.NewChunkReader(in)
 			o = driver.Guard(func() error { return out.DecodeBebop(cr) })
+			if !o.Panicked {
+				// the same bytes on a stream that ends in a persistent I/O error instead of EOF (a reset connection):
+				// a decoder that keeps asking after the failure exhausts the reader's budget ("does not stop")
+				cr2 := driver.NewChunkReader(in)
+				cr2.FinalErr = errIO
+				if o2 := driver.Guard(func() error { return b.New().DecodeBebop(cr2) }); o2.Panicked {
+					o = o2
+					dec = "DecodeBebop(stream ends in an I/O error)"
+				}
+				w.res.Transitions++
+			}
 		}
 		w.slowCall(b, time.Since(t0))
 		w.res.Transitions++
@@ -743,9 +763,9 @@ func (w *W) c07(groups [][]*driver.Bound) {
 					}
 				}
 				// giant counts last: they may kill the process (reported by the orchestrator as worker-killed)
-				for _, rv := range vals {
-					if !w.thorough {
-						break
+				for vi, rv := range vals {
+					if !w.thorough && vi >= 4 {
+						break // quick tier: the first four values of each case
 					}
 					if w.slow(b) {
 						break
@@ -757,7 +777,8 @@ func (w *W) c07(groups [][]*driver.Bound) {
 							continue
 						}
 						role := ref.Roles[i].String()
-						for _, v := range []uint32{1<<31 - 1, 1 << 31, 0xffffffff} {
+						// around 2^31 (sign of a 32-bit int) and just below 2^32 (4+n wraps in 32-bit arithmetic)
+						for _, v := range []uint32{1<<31 - 1, 1 << 31, 0xfffffffb, 0xfffffffc, 0xffffffff} {
 							c := append([]byte{}, enc...)
 							putU32(c[i:], v)
 							w.res.States++
